@@ -23,7 +23,7 @@ use std::time::{Duration, Instant};
 pub static META: PropMeta = PropMeta {
     id: "C11",
     level: "exploration",
-    rule: "cases: the loop thread runs run(None | 3 s) or block_on(scripted future); 1..2 actor threads with programs over wakeup / stop / stop+wakeup (run mode) or wake / wake_by_ref+clone / complete+wake / stop+wakeup (block_on mode), released only after the loop thread passed the 'run began' site; the schedule over all yield sites is generated. oracle (logical clock of the controller, blocked-in-kernel detected via /proc): after a wakeup() returned, the wait in progress or the next one returns (a loop thread still asleep in the poller with no wait-return after the wake-up, observed over 300 scheduling rounds, is a lost wake-up); after stop() then wakeup() returned the loop enters the wait at most once more and run returns Ok; run/block_on never return without cause (Ok/None only after a stop began, Some(v) only after the future returned Ready(v)); the future is polled initially and a poll starts after every wake that began while it was pending. non-trivial: an actor's signal site falls between the loop's stop-flag check and its entry into the wait, or between the waker's flag store and its notify, or between the loop's flag swap and its wait; distinct by case fingerprint",
+    rule: "cases: the loop thread runs run(None | 3 s) or block_on(scripted future), in 40% of the cases with a timer armed for one hour in the loop (so that the wait is bounded by a timer deadline); 1..2 actor threads with programs over wakeup / stop / stop+wakeup (run mode) or wake / wake_by_ref+clone / complete+wake / stop+wakeup (block_on mode), released only after the loop thread passed the 'run began' site; the schedule over all yield sites is generated. oracle (logical clock of the controller, blocked-in-kernel detected via /proc): after a wakeup() returned, the wait in progress or the next one returns (a loop thread still asleep in the poller with no wait-return after the wake-up, observed over 300 scheduling rounds, is a lost wake-up); after stop() then wakeup() returned the loop enters the wait at most once more and run returns Ok; run/block_on never return without cause (Ok/None only after a stop began, Some(v) only after the future returned Ready(v)); the future is polled initially and a poll starts after every wake that began while it was pending. non-trivial: an actor's signal site falls between the loop's stop-flag check and its entry into the wait, or between the waker's flag store and its notify, or between the loop's flag swap and its wait; distinct by case fingerprint",
     assumptions: &[
         "interleavings at yield-site granularity, x86-TSO, real atomics and real poller notification (eventfd)",
         "'promptly' is never a duration: only a loop thread provably asleep in the kernel with an unserved wake-up counts",
@@ -58,6 +58,9 @@ pub struct Case {
     pub schedule: Vec<u8>,
     #[serde(default)]
     pub exact: bool,
+    /// a timer armed for one hour sits in the loop (the wait is then bounded by a timer deadline, not unbounded)
+    #[serde(default)]
+    pub far_timer: bool,
 }
 
 fn case_strategy() -> impl Strategy<Value = Case> {
@@ -68,7 +71,7 @@ fn case_strategy() -> impl Strategy<Value = Case> {
         1 => (Just(Mode::Run3s), proptest::collection::vec(proptest::collection::vec(run_op, 1..=4), 1..=2), schedule_strategy(120)),
         3 => (Just(Mode::BlockOn), proptest::collection::vec(proptest::collection::vec(bo_op, 1..=4), 1..=2), schedule_strategy(120)),
     ]
-    .prop_map(|(mode, actors, schedule)| Case { mode, actors, schedule, exact: false })
+    .prop_flat_map(|(mode, actors, schedule)| prop::bool::weighted(0.4).prop_map(move |far_timer| Case { mode, actors: actors.clone(), schedule: schedule.clone(), exact: false, far_timer }))
 }
 
 struct FutShared {
@@ -123,7 +126,8 @@ pub fn run_sched(case: &Case) -> Out {
     let loop_idx = n_actors;
     let rec: Arc<Mutex<Vec<Rec>>> = Arc::new(Mutex::new(Vec::new()));
     let fut = Arc::new(FutShared { waker: Mutex::new(None), complete: AtomicBool::new(false), polls: Mutex::new(vec![]), returned_ready: AtomicBool::new(false) });
-    let (tx_sig, rx_sig) = mpsc::channel::<LoopSignal>();
+    let (tx_sig, rx_sig) = mpsc::channel::<(LoopSignal, calloop::ping::Ping)>();
+    let far_timer = case.far_timer;
     let loop_done = Arc::new(AtomicBool::new(false));
     let loop_result: Arc<Mutex<Option<Result<Option<u32>, String>>>> = Arc::new(Mutex::new(None));
     let stop_begun = Arc::new(AtomicU32::new(0));
@@ -140,7 +144,15 @@ pub fn run_sched(case: &Case) -> Out {
             let loop_result = loop_result.clone();
             loop_join = sc.spawn(move || {
                 let mut el: EventLoop<'static, ()> = EventLoop::try_new().expect("event loop");
-                tx_sig.send(el.get_signal()).unwrap();
+                // a ping source nobody pings during the case: the harness's last resort to end a loop whose wake-ups are lost
+                let (rescue_ping, rescue_src) = calloop::ping::make_ping().expect("make_ping");
+                el.handle().insert_source(rescue_src, |_, _, _| {}).expect("insert rescue ping");
+                if far_timer {
+                    el.handle()
+                        .insert_source(calloop::timer::Timer::from_duration(Duration::from_secs(3600)), |_, _, _| calloop::timer::TimeoutAction::Drop)
+                        .expect("insert far timer");
+                }
+                tx_sig.send((el.get_signal(), rescue_ping)).unwrap();
                 let r = ctl.enrolled(loop_idx, || {
                     let rec2 = rec.clone();
                     match mode {
@@ -163,7 +175,7 @@ pub fn run_sched(case: &Case) -> Out {
                 loop_done.store(true, Ordering::SeqCst);
             });
         }
-        let signal = rx_sig.recv().expect("signal");
+        let (signal, rescue_ping) = rx_sig.recv().expect("signal");
         let mut joins = vec![];
         for (ai, prog) in case.actors.iter().enumerate() {
             let ctl = ctl.clone();
@@ -267,6 +279,10 @@ pub fn run_sched(case: &Case) -> Out {
             fut.complete.store(true, Ordering::SeqCst);
             signal.stop();
             signal.wakeup();
+            if t0.elapsed() > Duration::from_millis(100) {
+                // wake-ups do not end the wait any more (that is what the oracle reports): end it with a real event
+                rescue_ping.ping();
+            }
             std::thread::sleep(Duration::from_millis(1));
         }
         for j in joins {
@@ -450,7 +466,7 @@ fn dfs(ctx: &CheckCtx, mode: Mode, actors: Vec<Vec<AOp>>, max: u64) -> Option<Fo
     let name = format!("dfs:{mode:?}:{}", serde_json::to_string(&actors).unwrap_or_default());
     let mut nontrivial = 0u64;
     let (count, complete) = sched::dfs_all(max, |prefix| {
-        let case = Case { mode, actors: actors.clone(), schedule: prefix.to_vec(), exact: true };
+        let case = Case { mode, actors: actors.clone(), schedule: prefix.to_vec(), exact: true, far_timer: false };
         let out = run_sched(&case);
         if out.nontrivial {
             nontrivial += 1;
